@@ -155,6 +155,21 @@ def job(args):
                 out['ld_all'] = [p.idx for p in l4.pulses]
                 m.f = 29.98
                 out['ld_listing'] = m.loads_as_mininec()
+                # the same load objects attached once more (a load may sit on several places; it is still ONE load):
+                # the first registered load to a whole block, the second to the whole antenna
+                again = []
+                for ld_, args_ in ((l1, (None, t)), (l2, ())):
+                    if ld_.n is None:
+                        continue
+                    try:
+                        m.register_load(ld_, *args_)
+                        again.append(ld_)
+                    except (ValueError, KeyError):
+                        pass
+                out['attached'] = [(zl, [p.idx for p in ld_.pulses]) for ld_, zl in ((l1, 5 + 1j), (l2, 6 + 1j), (l3, 7 + 1j), (l4, 8 + 1j))
+                                   if ld_.n is not None]
+                out['n_loads'] = len(m.loads)
+                out['n_distinct'] = len({id(x) for x in m.loads})
                 # what the system matrix sees of these attachments: every attached pulse once, with its own weight
                 m.Z = np.zeros((len(m.pulses), len(m.pulses)), dtype=complex)
                 m.compute_impedance_matrix_loads()
@@ -278,10 +293,10 @@ def job(args):
         goals.append(('load listing has one line per loaded pulse, naming it', z3.BoolVal(gotn == want)))
         # (6) the matrix diagonal carries each attachment exactly once with the weight of that pulse
         exp = [0j] * N
-        for key, zl in (('ld_kt', 5 + 1j), ('ld_a', 6 + 1j), ('ld_allt', 7 + 1j), ('ld_all', 8 + 1j)):
-            if not isinstance(o[key], tuple):
-                for n_ in o[key]:
-                    exp[n_] += -1j * zl * o['weights'][n_]
+        for zl, plist in o['attached']:
+            for n_ in plist:
+                exp[n_] += -1j * zl * o['weights'][n_]
+        goals.append(('a load attached in several steps is still one load in the model', z3.BoolVal(o['n_loads'] == o['n_distinct'])))
         okd = o['offdiag'] == 0.0 and all(abs(x - y) <= 1e-12 * (1 + abs(y)) for x, y in zip(o['diag'], exp))
         goals.append(('the system matrix gets every attached load exactly once on the diagonal of its pulse', z3.BoolVal(bool(okd))))
 
@@ -401,12 +416,22 @@ def replay(mm, name, c):
     m.register_load(l)
     if sorted(p.idx + 1 for p in l.pulses) != list(range(1, N + 1)):
         return ('C17:all', '%s tags %s: all loads pulses %s' % (name, c['tags'], sorted(p.idx + 1 for p in l.pulses)), rd)
+    # attach the first two loads once more (block t / whole antenna), as the symbolic run does
+    for ld_, args_ in ((m.loads[0] if m.loads else None, (None, t)), (m.loads[1] if len(m.loads) > 1 else None, ())):
+        if ld_ is None:
+            continue
+        try:
+            m.register_load(ld_, *args_)
+        except (ValueError, KeyError):
+            pass
+    if len(m.loads) != len({id(x) for x in m.loads}):
+        return ('C17:load-registered-twice', '%s tags %s: a load attached in several steps appears %d times in the model' % (name, c['tags'], max(sum(1 for y in m.loads if y is x) for x in m.loads)), rd)
     # matrix effect of everything attached so far: once per attachment, weight of the pulse
     m.f = 29.98
     m.Z = np.zeros((N, N), dtype=complex)
     m.compute_impedance_matrix_loads()
     exp = np.zeros(N, dtype=complex)
-    for ld in m.loads:
+    for ld in {id(x): x for x in m.loads}.values():
         for p in ld.pulses:
             wgt = (2.0 if (np.asarray(p.ground).any() and m.media is not None) else 1.0) / m.m
             exp[p.idx] += -1j * ld.impedance(m.f, p) * wgt
